@@ -176,17 +176,17 @@ def judge(L, seed, kind, real):
     n0, n1 = make_N_invariants(c0), make_N_invariants(c1)
     if n0.shape != (L + 1,):
         return f"{tag}: {n0.shape[0]} N invariants instead of L+1"
-    if not np.allclose(n0, n1, atol=tol):
+    if not np.allclose(n0, n1, rtol=0, atol=tol):
         i = int(np.argmax(np.abs(n0 - n1)))
         return f"{tag}: N invariant of degree {i} changes under rotation ({n0[i]!r} -> {n1[i]!r})"
     # the value: per-degree norm of the coefficients the function was built from
     want = np.array([np.sqrt(np.sum(np.abs(c[l * l:(l + 1) ** 2]) ** 2)) for l in range(L + 1)])
-    if not np.allclose(n0, want, atol=tol):
+    if not np.allclose(n0, want, rtol=0, atol=tol):
         return f"{tag}: N invariants are not the per-degree norms of the coefficients"
     s0, s1 = sht.power_spectrum(c0), sht.power_spectrum(c1)
-    if not np.allclose(s0, s1, atol=tol * scale):
+    if not np.allclose(s0, s1, rtol=0, atol=tol * scale):
         return f"{tag}: power spectrum changes under rotation"
-    if not np.allclose(s0, want ** 2 / (2 * np.arange(L + 1) + 1), atol=tol * scale):
+    if not np.allclose(s0, want ** 2 / (2 * np.arange(L + 1) + 1), rtol=0, atol=tol * scale):
         return f"{tag}: power spectrum is not |c_l|²/(2l+1)"
     # the spectrum is a function of the coefficient vector (its length fixes the degree), not of the transform object asked
     for other in {L + 3, max(L - 2, 0), 2 * L + 1} - {L}:
@@ -195,13 +195,13 @@ def judge(L, seed, kind, real):
             return f"{tag}: power_spectrum of the degree-{L} vector asked through SHT({other}) has {np.shape(so)[0]} entries / other values than through SHT({L})"
     if real:
         r0, r1 = sht.analysis(f0.real.copy()), sht.analysis(f1.real.copy())
-        if not np.allclose(sht.power_spectrum(r0), s0, atol=tol * scale) or not np.allclose(sht.power_spectrum(r1), s0, atol=tol * scale):
+        if not np.allclose(sht.power_spectrum(r0), s0, rtol=0, atol=tol * scale) or not np.allclose(sht.power_spectrum(r1), s0, rtol=0, atol=tol * scale):
             return f"{tag}: power spectrum of the real layout differs from the complex layout / changes under rotation"
     if L >= 1:
         p0, p1 = p_invariants_c(c0), p_invariants_c(c1)
         if p0.shape != (COUNTS[L][0],):
             return f"{tag}: {p0.shape[0]} P invariants, expected {COUNTS[L][0]}"
-        if not np.allclose(p0 ** 3, p1 ** 3, atol=1e-8 * scale ** 3):
+        if not np.allclose(p0 ** 3, p1 ** 3, rtol=0, atol=1e-8 * scale ** 3):
             i = int(np.argmax(np.abs(p0 ** 3 - p1 ** 3)))
             return f"{tag}: P invariant #{i} changes under rotation ({p0[i] ** 3!r} -> {p1[i] ** 3!r}, cubes)"
         full = make_invariants(L, c0)
@@ -241,7 +241,7 @@ def judge_pr(L, seed):
     grid = np.array(sht.grid_cartesian)
     f0, f1 = evaluate(L, c, grid), evaluate(L, c, np.einsum("ij,jab->iab", R.T, grid))
     p0, p1 = p_invariants_r(sht.analysis(f0.real.copy())), p_invariants_r(sht.analysis(f1.real.copy()))
-    if not np.allclose(p0 ** 3, p1 ** 3, atol=1e-8 * max(1.0, float(np.abs(c).max())) ** 3):
+    if not np.allclose(p0 ** 3, p1 ** 3, rtol=0, atol=1e-8 * max(1.0, float(np.abs(c).max())) ** 3):
         i = int(np.argmax(np.abs(p0 ** 3 - p1 ** 3)))
         return f"p_invariants_r, L={L}, real function: P invariant #{i} changes under rotation ({p0[i] ** 3!r} -> {p1[i] ** 3!r}, cubes)"
     return None
